@@ -1,9 +1,12 @@
+import SignaloModel.Proofs.BridgeConv
 import SignaloModel.Proofs.ConvProofs
 import SignaloModel.Proofs.TableChecks
 /-!
 # C05 — Convolution is an edge-padded FIR; delay shifts by exactly N
 
-Property theorems for C05 (statements are printed by `#check`, axioms by `#print axioms`;
+Property theorems for C05 (statements are printed by `#check`, axioms by `#check @Registry.conv_registry_correct
+#check @Registry.delay_registry_correct
+#print axioms`;
 `bin/check C05` re-elaborates this file on every run and audits the axiom lists).
 -/
 open SignaloModel
@@ -27,3 +30,5 @@ open SignaloModel
 #print axioms Fir.convL_shift
 #print axioms Fir.convL_const
 #print axioms Tables.sg_close
+#print axioms Registry.conv_registry_correct
+#print axioms Registry.delay_registry_correct
